@@ -118,6 +118,17 @@ def searches(repo, run, fn, idx):
         run.judged(rid, "nearest sample: %s" % src(c)[:90], ok=ok)
         if not ok:
             run.report("C19.2", DS, c, "the nearest-sample lookup is not argmin(|recorded times - query|) over the trimmed grid")
+    # every other ordering of times / signed durations in the function (e.g. "which of the two bracketing samples is nearer")
+    reported = {id(c) for c in calls} | {id(c) for c in near}
+    for v in ke.check():
+        if id(v.node) in reported:
+            continue
+        n += 1
+        run.judged(rid, "%s" % src(v.node)[:90], ok=False)
+        run.report("C19.2", DS, v.node, "DIR discipline: %s: the lookup is right for forward runs only" % v.why)
+    for node, ktxt in ke.judged:
+        if isinstance(node, ast.Compare):
+            run.judged(rid, "%s  [%s]" % (src(node)[:80], ktxt))
     if n == 0:
         run.judged(rid, "no time search in __getitem__", ok=False)
         run.report("C19.2", DS, fn, "__getitem__ has no time lookup at all", text="missing time lookup")
